@@ -33,7 +33,8 @@ def leaky_debug_adts(prog):
     for im in prog.impls:
         if last_seg(im.get("trait")) == "Debug" and im.get("derived") and im.get("self_adt"):
             derived.add(im["self_adt"])
-    leaky = {"mdk_storage_traits::group_id::GroupId", "openmls::group::GroupId"}
+    # a signed kind-445 wrapper event carries the hex Nostr group id in its h tag
+    leaky = {"mdk_storage_traits::group_id::GroupId", "openmls::group::GroupId", "nostr::event::Event"}
     changed = True
     while changed:
         changed = False
@@ -266,6 +267,31 @@ def run(ctx, rep):
                         if "p" in a and a["p"][0] == 1:
                             read |= set(e[1:] for e in a["p"][1:] if isinstance(e, str) and e.startswith("."))
             bad = read & fields
+            # nor may it hand a whole identifier-carrying value (GroupId, Group, a wrapper Event with its h tag, ...) to the formatter
+            import predicates as P
+            for g in [f] + [prog.fns[p] for p in prog.extent(f) if p in prog.fns and prog.fns[p].root == f.path and p != f.path]:
+                for c in g.live_calls():
+                    if c.name in ("field", "entry", "key", "value") or (c.name.startswith("new_") and (c.resolved or "").startswith("core::fmt::rt::Argument")):
+                        for a in c.args[1:] if c.name in ("field", "entry", "key", "value") else c.args:
+                            if "p" not in a:
+                                continue
+                            # the value itself (copies / reborrows / unsizing casts), not the struct it is a field of
+                            locs = set()
+                            st = [a["p"][0]]
+                            while st:
+                                l0 = st.pop()
+                                if l0 in locs:
+                                    continue
+                                locs.add(l0)
+                                for bb0, kind0, d0 in g.defs().get(l0, []):
+                                    if kind0 == "stmt" and d0.get("k") in ("use", "ref", "cast") and len(d0["d"]) == 1 and d0["o"] and "p" in d0["o"][0]:
+                                        src = d0["o"][0]["p"]
+                                        if all(e == "*" for e in src[1:]):
+                                            st.append(src[0])
+                            for l in locs:
+                                ty = g.locals[l]
+                                if any(has_type(ty, lp) for lp in leaky) and "secret::Secret<" not in ty and "MessageProcessingResult" not in ty:
+                                    bad = bad | {"formats a %s" % ty.lstrip("&")}
             rep.check(not bad, "redacting-debug", "%s::fmt" % adt_last, "Debug of %s reads only %s" % (adt_last, sorted(read)),
                       "the redacting Debug impl of %s reads sensitive field(s) %s" % (adt_last, sorted(bad)), f.loc())
     # derived Debug on types holding raw secrets (not wrapped in Secret<T>)
